@@ -90,7 +90,7 @@ func c14Base() *chain.Node {
 }
 
 type c14Obs struct {
-	Supply, Pool, Distr, Bonded, NotBonded, Gov *big.Int
+	Supply, Pool, Owed, Distr, Bonded, NotBonded, Gov *big.Int
 }
 
 func c14Observe(app c14App, ctx sdk.Context) c14Obs { return c14ObserveDenom(app, ctx, chain.Denom) }
@@ -100,7 +100,13 @@ func c14ObserveDenom(app c14App, ctx sdk.Context, denom string) c14Obs {
 		return app.BankKeeper.GetBalance(ctx, authtypes.NewModuleAddress(mod), denom).Amount.BigInt()
 	}
 	pool := app.DistrKeeper.GetFeePoolCommunityCoins(ctx).AmountOf(denom)
+	owed := pool
+	app.DistrKeeper.IterateValidatorOutstandingRewards(ctx, func(_ sdk.ValAddress, rewards distrtypes.ValidatorOutstandingRewards) bool {
+		owed = owed.Add(rewards.Rewards.AmountOf(denom))
+		return false
+	})
 	return c14Obs{
+		Owed:   owed.TruncateInt().BigInt(),
 		Supply: app.BankKeeper.GetSupply(ctx, denom).Amount.BigInt(),
 		Pool:   pool.TruncateInt().BigInt(), Distr: bal(distrtypes.ModuleName), Bonded: bal(stakingtypes.BondedPoolName),
 		NotBonded: bal(stakingtypes.NotBondedPoolName), Gov: bal(govtypes.ModuleName),
@@ -152,6 +158,11 @@ func runC14Keeper(st *ev.Stats, c C14Case) string {
 			ctx = ctx.WithBlockHeight(ctx.BlockHeight() + 1).WithBlockTime(ctx.BlockTime().Add(time.Duration(op.Dt) * time.Second))
 			app.StakingKeeper.BlockValidatorUpdates(ctx)
 		case "slash":
+			if v.IsUnbonded() {
+				// the staking keeper refuses (panics) by design: evidence against an unbonded validator never reaches Slash
+				st.Class("slash-skipped:validator-unbonded")
+				continue
+			}
 			cons, err := v.GetConsAddr()
 			must(err)
 			frac := sdk.MustNewDecFromStr(op.Frac)
@@ -309,8 +320,11 @@ func runC14Blocks(st *ev.Stats, h History) string {
 		if quiet && prevQuiet {
 			dPool := new(big.Int).Sub(after.Pool, before.Pool)
 			dDistr := new(big.Int).Sub(after.Distr, before.Distr)
-			if dPool.Cmp(dDistr) != 0 {
-				return fail("burn-block-community-pool", fmt.Sprintf("tx-free block %d: community pool +%s but distribution account +%s", i+1, dPool, dDistr))
+			// what the distribution account holds is the community pool plus the validators' outstanding rewards; in a
+			// tx-free block the latter only shrink when a validator record is removed (its commission is paid out)
+			dOwed := new(big.Int).Sub(after.Owed, before.Owed)
+			if dOwed.Cmp(dDistr) != 0 {
+				return fail("burn-block-community-pool", fmt.Sprintf("tx-free block %d: community pool + outstanding rewards changed by %s (pool alone %s) but the distribution account by %s", i+1, dOwed, dPool, dDistr))
 			}
 			dPools := new(big.Int).Add(new(big.Int).Sub(after.Bonded, before.Bonded), new(big.Int).Sub(after.NotBonded, before.NotBonded))
 			dPools.Add(dPools, new(big.Int).Sub(after.Gov, before.Gov))
